@@ -53,6 +53,13 @@ SNIPPETS = [
     ("power of a table", {"p": (2, 3)}, "out = p**2"),
     ("sum over columns", {"p": (2, 3)}, "out = np.sum(p, axis=0)"),
     ("arange as an index", {"g": (3,)}, "m = np.zeros((3, 3))\ni = np.arange(3)\nm[i, i] = g\nout = m"),
+    ("loop over a range", {"c": (3,)}, "m = np.eye(3)\nfor k in range(len(c)):\n    m[-1, k] = c[k]\nout = m"),
+    ("loop over rows", {"p": (3, 2)}, "acc = np.zeros(2)\nfor row in p:\n    acc += row\nout = acc"),
+    ("broadcast index arrays with new axes", {"a": (4, 4)}, "pairs = np.array([[0, 1], [2, 3], [1, 3]])\nout = a[pairs[:, None, :, None], pairs[None, :, None, :]]"),
+    ("diagonal of a stack", {"a": (3, 3)}, "out = np.diagonal(a, axis1=-2, axis2=-1)"),
+    ("delete from an arange", {"a": (4, 4)}, "rows = np.delete(np.arange(4), (1, 2))\nout = a[rows]"),
+    ("reshape", {"a": (2, 3)}, "out = a.reshape((3, 2))"),
+    ("column with a new axis", {"g": (3,), "a": (3, 3)}, "out = a * g[:, None]"),
 ]
 
 
